@@ -9,7 +9,7 @@
    [tpl_ok]: the template's difficulty is at least 1, fits 64 bits and is the minimum difficulty passed to SendJob
    (what GetBlockTemplate produces outside the masterchain). *)
 From Coq Require Import NArith List.
-From Virel Require Import Lib.Config Lib.AMap Lib.U64 Model.Stratum Proofs.Stratum Gen.Params.
+From Virel Require Import Lib.Config Lib.AMap Lib.U64 Model.Stratum Proofs.Stratum Model.StratumMM Proofs.StratumMM Gen.Params.
 Import ListNotations.
 Open Scope N_scope.
 
@@ -184,3 +184,37 @@ Theorem C15_submit_never_panics : forall cfg pow evs s os cid jid nonce x mb s' 
   Forall tpl_ok evs -> run cfg pow init_server evs = (s, os) -> step cfg pow s (ESubmit cid jid nonce x mb) = (s', o) -> o <> OPanic.
 Proof. exact submit_never_panics_run. Qed.
 Print Assumptions C15_submit_never_panics.
+
+(* ---- the masterchain (Model/StratumMM.v): the verdict on a share when the node merge-mines other chains ----
+   own = difficulty of the job's own block, mindiff = the difficulty the job's target was computed from (recorded with the
+   job), now = the difficulties the connected merge-mined chains advertise at the time of the submit (any list: chains may
+   have raised or lowered their difficulty, left or joined since the job went out), pow = the share's value. *)
+
+(* a share that solves its job at the job's target is never rejected for failing proof of work *)
+Theorem C15_masterchain_solving_share_never_low_diff : forall own mindiff now pow,
+  mm_meets pow mindiff = true -> mm_judge own mindiff now pow <> VLowDiff /\ mm_answered_ok (mm_judge own mindiff now pow) = true.
+Proof. exact (fun own mindiff now pow H => conj (solving_share_never_low_diff own mindiff now pow H) (solving_share_answered_ok own mindiff now pow H)). Qed.
+Print Assumptions C15_masterchain_solving_share_never_low_diff.
+
+(* and nothing easier than the job's target passes *)
+Theorem C15_masterchain_low_share_rejected : forall own mindiff now pow,
+  mm_meets pow own = false -> existsb (mm_meets pow) now = false -> mm_meets pow mindiff = false ->
+  mm_judge own mindiff now pow = VLowDiff.
+Proof. exact low_share_rejected. Qed.
+Print Assumptions C15_masterchain_low_share_rejected.
+
+(* THE CODE AS FOUND violated the property on the masterchain (finding C15-masterchain-stale-merge-difficulty, repaired):
+   job issued when the merge-mined chain asked for difficulty 1, the chain now asks for 2; the share meets the job's
+   target and was answered "does not match minimum difficulty requirements"; the repaired code answers OK *)
+Theorem C15_masterchain_old_code_refuted :
+  mm_meets (2 ^ 127 + 1) 1 = true /\ mm_judge_old 100000 [2] (2 ^ 127 + 1) = VLowDiff /\
+  mm_judge 100000 1 [2] (2 ^ 127 + 1) = VShareOnly.
+Proof. exact old_code_rejects_solving_share. Qed.
+Print Assumptions C15_masterchain_old_code_refuted.
+
+(* the repair changes the verdict only for shares that are good for no chain any more *)
+Theorem C15_masterchain_repair_conservative : forall own mindiff now pow,
+  (mm_meets pow mindiff = true -> mm_meets pow own = true \/ existsb (mm_meets pow) now = true) ->
+  mm_judge own mindiff now pow = mm_judge_old own now pow.
+Proof. exact repair_conservative. Qed.
+Print Assumptions C15_masterchain_repair_conservative.
